@@ -55,6 +55,7 @@ Section Inst.
   Definition chk_stop : bool :=
     (lbp_int K <=? 0) && (lbp_float K <=? 0) && (lbp_bool K <=? 0) && (lbp_str K <=? 0)
     && (lbp_pair K <=? 0) && (lbp_hash K <=? 0) && (lbp_semicolon K <=? 0) && (lbp_sym_default K <=? 0)
+    && match lbp_other K with Some l => l <=? 0 | None => false end
     && forallb (fun t => match lbp_of E K t with Some l => l <=? 0 | None => false end) prefix_toks.
 
   Definition core_ok : bool :=
@@ -303,15 +304,13 @@ Section Inst.
     exists l. split; [exact Hl|]. destruct I_max. split; lia.
   Qed.
 
-  (* tokens LeftBindingPower has a case for *)
-  Definition known_tok (t : tok) : bool := match t with TOther _ => false | _ => true end.
-
-  Lemma I_start : forall t, known_tok t = true ->
+  Lemma I_start : forall t, (fun _ : tok => true) t = true ->
     Doc.is_semi t || Doc.is_operand t || Doc.is_prefix t = true -> Doc.is_postfix t = false ->
     exists l, lbp_of E K t = Some l /\ l <= 0.
   Proof.
     pose proof ok_stop as Hs. unfold chk_stop in Hs.
     apply andb_prop in Hs; destruct Hs as (Hs & S9).
+    apply andb_prop in Hs; destruct Hs as (Hs & S10).
     apply andb_prop in Hs; destruct Hs as (Hs & S8).
     apply andb_prop in Hs; destruct Hs as (Hs & S7).
     apply andb_prop in Hs; destruct Hs as (Hs & S6).
@@ -320,9 +319,10 @@ Section Inst.
     apply andb_prop in Hs; destruct Hs as (Hs & S3).
     apply andb_prop in Hs; destruct Hs as (S1 & S2).
     apply Z.leb_le in S1, S2, S3, S4, S5, S6, S7, S8.
-    intros t Hk H Hp; destruct t as [n c|n|i|i|i|i|i|i|i| | |i|i]; try destruct c;
-      cbv beta iota delta [Doc.is_semi Doc.is_operand Doc.is_prefix Doc.is_postfix orb known_tok] in H, Hp, Hk;
+    intros t _ H Hp; destruct t as [n c|n|i|i|i|i|i|i|i| | |i|i]; try destruct c;
+      cbv beta iota delta [Doc.is_semi Doc.is_operand Doc.is_prefix Doc.is_postfix orb] in H, Hp;
       try discriminate; cbn [lbp_of]; eauto.
+    3:{ destruct (lbp_other K) as [l|]; [|discriminate]. exists l. split; auto. now apply Z.leb_le. }
     - (* plain symbol: operand or `not` *)
       destruct (existsb (String.eqb n) Doc.prefix_names) eqn:Ep.
       + assert (Hin : In (TSym n false) prefix_toks).
@@ -354,14 +354,14 @@ Section Inst.
      a statement may start with `not`) is expanded by the model of InfixExpandArray to exactly
      the specification's statement list *)
   Theorem instance_block : forall ts xs,
-    Doc.block ts = Some xs -> forallb known_tok ts = true ->
+    Doc.block ts = Some xs ->
     m_parse_block E K (fun _ => false) ts = ROk xs.
   Proof.
-    intros ts xs H Hk. rewrite forallb_forall in Hk. apply Forall_forall in Hk. unfold m_parse_block, parse_block. unfold Doc.block, spec_block in H.
+    intros ts xs H. assert (Hk : Forall (fun t : tok => (fun _ : tok => true) t = true) ts) by (apply Forall_forall; reflexivity). unfold m_parse_block, parse_block. unfold Doc.block, spec_block in H.
     apply (block_is_the_oracle tok (lbp_of E K) (nud_of E) (led_of E K) is_else (fun _ => false) _
               Doc.is_operand Doc.is_prefix Doc.is_binop Doc.is_postfix Doc.prec Doc.rassoc L_of R_of maxl maxr
               I_operand I_prefix I_binop I_postfix I_order I_uniform I_max I_binop_pos
-              is_semi is_label_for known_tok I_start I_semi I_label _ ts xs H Hk). lia.
+              is_semi is_label_for (fun _ => true) I_start I_semi I_label _ ts xs H Hk). lia.
   Qed.
 
   (* ====================================================================================== *)
@@ -612,10 +612,9 @@ Section Inst.
 
   Lemma block_two_rest : forall ts x1 x2 xs,
     Doc.block ts = Some (x1 :: x2 :: xs) -> forallb Doc.is_operand ts = true ->
-    forallb known_tok ts = true ->
     exists y t rest, m_parse_one E K nf ts = ROk (y, t :: rest).
   Proof.
-    intros ts x1 x2 xs Hb Hop Hkn. apply instance_block in Hb; [|exact Hkn].
+    intros ts x1 x2 xs Hb Hop. apply instance_block in Hb.
     unfold m_parse_block, parse_block in Hb. unfold m_parse_one, parse_one.
     destruct ts as [|t r]; [discriminate|].
     cbn [forallb] in Hop. apply andb_prop in Hop. destruct Hop as (Ht & _).
@@ -638,10 +637,10 @@ Section Inst.
      [i] with the oracle tree of i, [a : b] / [: b] / [a :] / [:] with the oracle trees of the
      bounds, the raw tokens for a single token or several juxtaposed operands (hash multi-key) *)
   Theorem inst_selector : forall content s,
-    Doc.selector content = Some s -> forallb known_tok (split_colon_tail content) = true ->
+    Doc.selector content = Some s ->
     norm_selector E K nf content = ROk (sel_conv s).
   Proof.
-    intros content s H Hkn. unfold Doc.selector in H. unfold norm_selector.
+    intros content s H. unfold Doc.selector in H. unfold norm_selector.
     destruct (length (filter is_colon (split_colon_tail content))) as [|[|n]].
     - rewrite I_selmax. destruct (split_colon_tail content) as [|t1 [|t2 r]].
       + now inversion H.
@@ -652,7 +651,7 @@ Section Inst.
         * destruct (Doc.block (t1 :: t2 :: r)) as [[|x1 [|x2 xs]]|] eqn:Eb; try discriminate.
           destruct (forallb Doc.is_operand (t1 :: t2 :: r)) eqn:Eo; [|discriminate].
           inversion H; subst.
-          destruct (block_two_rest _ _ _ _ Eb Eo Hkn) as (y & t' & rest & Hy). now rewrite Hy.
+          destruct (block_two_rest _ _ _ _ Eb Eo) as (y & t' & rest & Hy). now rewrite Hy.
     - destruct (Doc.seg (fst (split_at_colon (split_colon_tail content)))) as [a|] eqn:Ea; [|discriminate].
       destruct (Doc.seg (snd (split_at_colon (split_colon_tail content)))) as [b|] eqn:Eb; [|discriminate].
       inversion H; subst. rewrite (seg_doc _ _ Ea), (seg_doc _ _ Eb). reflexivity.
